@@ -1152,7 +1152,16 @@ func (x *Exec) execUnOp(fr *Frame, st *State, i *ssa.UnOp) {
 			x.nilCheck(st, a.Ref, "load "+x.srcText(i))
 			x.checkGuarded(fr, st, a, false, i)
 		}
-		fr.env[i] = x.loadAt(st, a)
+		v := x.loadAt(st, a)
+		if g, ok := i.X.(*ssa.Global); ok && len(v.L) == 4 {
+			if n, ok := x.w.constLenGlobals()[g]; ok {
+				// lookup table initialised once with a literal: its length is known
+				is := x.idxSort()
+				x.assumeIn(st, and(eq(v.L[2], x.numLit(bigInt(n), is)), not(eq(v.L[0], "0"))))
+				x.assume1("package-level table " + g.Name() + " keeps the length of its initialiser (never reassigned)")
+			}
+		}
+		fr.env[i] = v
 	case token.NOT:
 		fr.env[i] = Val{GT: i.Type(), S: []*Sort{sortBool}, L: []string{not(x.val(fr, i.X).One())}}
 	case token.SUB:
